@@ -33,8 +33,9 @@ def _tmpjob(obj):
     return path
 
 
-def _run_lines(cmd, jobpath, timeout):
+def _run_lines(cmd, jobpath, timeout, extra_env=None):
     env = dict(os.environ, TZ="UTC", PYTHONDONTWRITEBYTECODE="1", PYTHONHASHSEED="0")
+    env.update(extra_env or {})
     try:
         p = subprocess.run(cmd + [jobpath], cwd=HERE, env=env, capture_output=True, text=True, timeout=timeout)
         out, err, rc = p.stdout, p.stderr, p.returncode
@@ -57,7 +58,8 @@ def _run_lines(cmd, jobpath, timeout):
 def run_symbolic_batch(module, specs, seed):
     job = _tmpjob({"src": SRC, "module": module, "seed": seed, "specs": specs})
     budget = sum(float(s.get("timeout", 60)) for s in specs) * 2.0 + 90 + 5 * len(specs)
-    res, err, rc = _run_lines([PY_SYM, "-m", "engine.worker"], job, budget)
+    keep = bool(specs) and all(s.get("keep_logging") for s in specs)
+    res, err, rc = _run_lines([PY_SYM, "-m", "engine.worker"], job, budget, {"VERIF_KEEP_LOGGING": "1" if keep else "0"})
     got = {r["id"] for r in res}
     for s in specs:
         if s["id"] not in got:
@@ -128,7 +130,10 @@ def check(prop, tier, seed):
     specs.sort(key=lambda s: -float(s.get("timeout", 60)))          # long obligations first (better packing); ties keep the seeded order
     nb = len(specs) if len(specs) <= 96 else NPROC * 6
     nb = max(1, nb)
-    batches = [specs[i::nb] for i in range(nb)]
+    # obligations that run the repository's code natively with its logging statements in place get worker processes of their own
+    plain = [s for s in specs if not s.get("keep_logging")]
+    keepl = [s for s in specs if s.get("keep_logging")]
+    batches = [plain[i::nb] for i in range(nb)] + [keepl[i::nb] for i in range(nb)]
     results = []
     with cf.ThreadPoolExecutor(max_workers=NPROC) as ex:
         futs = [ex.submit(run_symbolic_batch, modname, b, seed) for b in batches if b]
